@@ -19,7 +19,7 @@ META = dict(
         "where the statement does not say whether descendants of a recycled (older) intermediate process count, both readings are accepted: required = reachable through processes not older than the caller, allowed = graph-reachable and not older than the caller",
     ],
     stubs=["os.listdir('/proc')", "open() of /proc/<pid>/stat and /proc/stat", "cext.check_pid_range"],
-    bounds=dict(quick=dict(processes="1..3 (parent vector and start ticks symbolic; n^n graphs enumerated by the solver, orderings decided symbolically)"), thorough=dict(processes="1..6 (children), 1..5 (parents)")),
+    bounds=dict(quick=dict(processes="1..3 (parent vector and start ticks symbolic; n^n graphs enumerated by the solver, orderings decided symbolically)"), thorough=dict(processes="1..5 (children), 1..5 (parents)")),
     outside=["more than 5 processes", "the table changing while it is being walked, other than one process vanishing"],
     labels=["each-once", "never-itself", "never-older-than-caller", "direct-children-included", "only-direct-children", "only-reachable", "reachable-included", "terminates", "parent", "parents-chain",
             "recycled-caller-NoSuchProcess", "ancestor-vanishing-is-not-an-error"],
